@@ -803,6 +803,32 @@ var kC08GCS = register(&Kind[c08GCS]{
 		default:
 			c.Data = rapid.SliceOfN(rapid.Byte(), 0, 64).Draw(t, "data")
 		}
+		if rapid.IntRange(0, 3).Draw(t, "runs") == 0 {
+			// runs of 20..80 one-bits starting at every bit offset, between stretches of zeros and noise: unary parts
+			// that straddle byte and word boundaries
+			var bitsOut []bool
+			for seg := rapid.IntRange(1, 4).Draw(t, "segs"); seg > 0; seg-- {
+				for z := rapid.IntRange(0, 9).Draw(t, "zeros"); z > 0; z-- {
+					bitsOut = append(bitsOut, false)
+				}
+				for r := rapid.IntRange(20, 80).Draw(t, "ones"); r > 0; r-- {
+					bitsOut = append(bitsOut, true)
+				}
+				bitsOut = append(bitsOut, false)
+				for r := rapid.IntRange(0, 25).Draw(t, "rest"); r > 0; r-- {
+					bitsOut = append(bitsOut, rapid.Bool().Draw(t, "bit"))
+				}
+			}
+			c.Data = make([]byte, (len(bitsOut)+7)/8)
+			for i, b := range bitsOut {
+				if b {
+					c.Data[i/8] |= 0x80 >> uint(i%8)
+				}
+			}
+			c.N = uint32(rapid.IntRange(1, 6).Draw(t, "nruns"))
+			c.P = uint8(rapid.SampledFrom([]int{0, 8, 19, 20, 32}).Draw(t, "pruns"))
+			c.M = rapid.SampledFrom([]uint64{1, 784931, 1 << 20, 1 << 40}).Draw(t, "mruns")
+		}
 		for i := rapid.IntRange(0, 4).Draw(t, "nq"); i > 0; i-- {
 			c.Query = append(c.Query, genBytes(t, "q", 0, 20))
 		}
